@@ -292,7 +292,7 @@ func init() {
 	register(&propertySpec{
 		ID:      "C13",
 		Explain: "Static totality rules: recursion classes, may-panic sites on input-derived data, nil use after an ignored error, locks released by plain calls around code that can panic, swallowed errors.",
-		Rules:   []ruleFn{ruleCacheNilGuard, ruleTerm("C13"), rulePanics, rulePanicNilUse, ruleErrSwallow, ruleNilAfterErr, ruleLockDefer, rulePrivPair, ruleCacheErrOrigin, ruleNilZeroArg, ruleLockReentry("C13"), rulePendingPair("C13"), ruleHookLoadTolerant("C13"), ruleTypedNil("C13"), ruleRecoverAll("C13"), ruleRuleShapedSkip("C13"), rulePropTyped("C13"), ruleParseRecover, ruleLockSend("C13"), ruleBrkInterval("C13"), rulePrepLoadTolerant("C13"), rulePanicMust, rulePrivLocal("C13"), ruleRandGuard("C13"), ruleErrRedress("C13")},
+		Rules:   []ruleFn{ruleListTolerant, ruleCacheNilGuard, ruleTerm("C13"), rulePanics, rulePanicNilUse, ruleErrSwallow, ruleNilAfterErr, ruleLockDefer, rulePrivPair, ruleCacheErrOrigin, ruleNilZeroArg, ruleLockReentry("C13"), rulePendingPair("C13"), ruleHookLoadTolerant("C13"), ruleTypedNil("C13"), ruleRecoverAll("C13"), ruleRuleShapedSkip("C13"), rulePropTyped("C13"), ruleParseRecover, ruleLockSend("C13"), ruleBrkInterval("C13"), rulePrepLoadTolerant("C13"), rulePanicMust, rulePrivLocal("C13"), ruleRandGuard("C13"), ruleErrRedress("C13")},
 	})
 }
 
